@@ -10,6 +10,7 @@ import (
 	"io"
 	"os"
 	"syscall"
+	"time"
 	"testing"
 
 	"pgregory.net/rapid"
@@ -91,6 +92,8 @@ func genC16(t *rapid.T) c16Case {
 	}
 	return c
 }
+
+const c16ReadDeadline = 60 * time.Second
 
 // c16TimeoutErr looks like a net.Error of a connection that timed out.
 type c16TimeoutErr struct{}
@@ -217,7 +220,27 @@ func checkC16(c c16Case) obs.Result {
 		fr := run.NewFaultReader(in, c.Schedule, p, resume)
 		fr.WithData = c.ErrWithData
 		fr.Err = c16Errs[c.ErrKind]
-		got, terr := run.Transcript(sch, c.wrap(fr), run.Opts{MaxReads: n + 3, ExtraRead: 2})
+		// The faulty run in a goroutine of its own: a Read that WAITS (retries with a back-off, blocks on something) burns
+		// no CPU, so the general watchdog cannot tell it from a starved machine. Here nothing can legitimately wait - the
+		// reader is in memory, a whole run takes about a millisecond - so 60 s without a result is "does not return".
+		type faulty struct {
+			steps []run.Step
+			err   error
+		}
+		done := make(chan faulty, 1)
+		go func() {
+			st, e := run.Transcript(sch, c.wrap(fr), run.Opts{MaxReads: n + 3, ExtraRead: 2})
+			done <- faulty{st, e}
+		}()
+		var got []run.Step
+		var terr error
+		select {
+		case f := <-done:
+			got, terr = f.steps, f.err
+		case <-time.After(c16ReadDeadline):
+			return obs.Violationf("after the input reader failed a Read did not return within %v (the fault-free run of this input takes %d Reads in milliseconds): fault at byte %d of %d (error %T %q, reader wrap %d, transient=%v), input %q",
+				c16ReadDeadline, n, p, len(in), c16Errs[c.ErrKind], c16Errs[c.ErrKind].Error(), c.Wrap, c.Transient, in)
+		}
 		describe := func() string {
 			return fmt.Sprintf("fault at byte %d of %d (error %T %q, reader wrap %d, transient=%v resume=%d with-data=%v), schedule %+v, input %q", p, len(in), c16Errs[c.ErrKind], c16Errs[c.ErrKind].Error(), c.Wrap, c.Transient, c.Resume, c.ErrWithData, c.Schedule, in)
 		}
